@@ -396,3 +396,33 @@ func (p *Prog) errSitesInScope(r *Report, rule string, scope []string, base call
 	}
 	return nBase
 }
+
+// callbackOf returns the function that a call runs as its callback argument: a function literal (pseudo entry of
+// the owner) or a function / method value of the module (u.persist, persist). nil when there is none.
+func (p *Prog) callbackOf(owner *FuncInfo, call *ast.CallExpr) *FuncInfo {
+	info := owner.Pkg.TypesInfo
+	for i, a := range call.Args {
+		a = ast.Unparen(a)
+		if l, ok := a.(*ast.FuncLit); ok {
+			return owner.LitInfo(l, i+1)
+		}
+		if tv, ok := info.Types[a]; !ok || tv.Type == nil {
+			continue
+		} else if _, isSig := tv.Type.Underlying().(*types.Signature); !isSig {
+			continue
+		}
+		var fn *types.Func
+		switch x := a.(type) {
+		case *ast.Ident:
+			fn, _ = info.Uses[x].(*types.Func)
+		case *ast.SelectorExpr:
+			fn, _ = info.Uses[x.Sel].(*types.Func)
+		}
+		if fn != nil {
+			if fi := p.Funcs[fkey(fn.Origin())]; fi != nil && fi.Decl.Body != nil {
+				return fi
+			}
+		}
+	}
+	return nil
+}
